@@ -603,7 +603,7 @@ pub fn run(cfg: &Cfg, rep: &mut Report) {
     }
 
     let max_tris = if cfg.quick() { 6 } else { 12 };
-    let n = cfg.n(40_000, 3_000_000);
+    let n = cfg.n(120_000, 8_000_000);
     rep.run_stream(cfg, 0, "scenes", n, |rng, i, rep| match i % 7 {
         0 => scene_case::<f32>(rng, rep, i, max_tris),
         1 => scene_case::<Vec2>(rng, rep, i, max_tris),
@@ -613,7 +613,7 @@ pub fn run(cfg: &Cfg, rep: &mut Report) {
         5 => scene_case::<(Vec2, f32)>(rng, rep, i, max_tris),
         _ => scene_case::<(f32, Vec3)>(rng, rep, i, max_tris),
     });
-    rep.run_stream(cfg, 1, "front_doors", cfg.n(8_000, 500_000), |rng, _, rep| front_door_case(rng, rep));
+    rep.run_stream(cfg, 1, "front_doors", cfg.n(20_000, 1_500_000), |rng, _, rep| front_door_case(rng, rep));
 
     rep.floor("pixels.judged_inside", 2_000_000);
     rep.floor("pixels.judged_outside", 2_000_000);
